@@ -20,6 +20,11 @@ NA = {
 }
 
 CLAIMS = {
+    'C13': dict(
+        category='exploration', technique='deterministic simulation: seeded operation histories on an in-memory disk with reopen = restart from durable bytes, checked against a dict reference model and an independent decoder of the directory file',
+        engine='E2-simfs',
+        text='Seeded histories of open(r/w/a) / add_file / new_file+write / overwrite / delete / write_dirfile / context exit / reopen over directory and single-file archives, all preload limits and archive indexes, sizes crossing the limit and 64 KiB, all three name spellings; after every reopen that follows write_dirfile the listed names, read(), verify(), verify_all(), name-form identity and VPKFileSystem reads must equal the model, and an independent decoder of the bytes on the simulated disk must find the same names, bytes, CRCs and a consistent tree length; read-only archives must reject every mutation and leave the disk byte-identical. Short raw reads/writes are injected as legal disk behaviour.',
+        note='No crash promise is judged (none is stated). Names restricted to what the format can represent. SimFS is a validated stub.', ref='5/C13'),
     'C12': dict(
         category='fault_enumeration', technique='deterministic simulation with fault injection: in-memory disk behind open/os.*, complete single-fault enumeration per workload (kill before/after/torn at every disk operation, every legal errno, sticky ENOSPC, short write, EINTR), baton-passed two-writer interleavings',
         engine='E2-simfs',
